@@ -334,6 +334,15 @@ pub fn run(seed: u64, thorough: bool, rep: &mut Report) {
                  XOp::Poll { blocks: vec![vec![1]], fail: None }, XOp::Poll { blocks: vec![vec![1010]], fail: None },
                  XOp::Poll { blocks: vec![vec![]; 99], fail: None }, XOp::Poll { blocks: vec![vec![], vec![]], fail: None },
                  XOp::Get { user: 1, loc: 1 }, XOp::Poll { blocks: vec![vec![]], fail: None }]
+        } else if c == 2 {
+            // a long backlog delivered in one poll: the penalty is confirmed 105 blocks into it, the process dies once
+            // that is recorded, and the whole backlog is processed again from the recorded block (the tracker then
+            // carries a confirmation height above the blocks being connected)
+            let enc = |l: u32| BlobSpec::Enc { dispute: l, penalty: 1000 + l * 10, len: 260 };
+            let mut backlog = vec![vec![]; 120];
+            backlog[104] = vec![1010];
+            vec![XOp::Reg(1), XOp::Add { user: 1, loc: 1, blob: enc(1), tsd: 5 }, XOp::Poll { blocks: vec![vec![1]], fail: None },
+                 XOp::Poll { blocks: backlog, fail: None }, XOp::Get { user: 1, loc: 1 }, XOp::Poll { blocks: vec![vec![]], fail: None }]
         } else {
             gen_history(&mut rng, nops)
         };
@@ -556,6 +565,11 @@ pub fn run(seed: u64, thorough: bool, rep: &mut Report) {
                             break;
                         }
                     }
+                }
+                // no block is ever disconnected in these histories: a dispute transaction handed to the node (which the
+                // tower only does for a tracker whose confirmation was reorged out) has no justification
+                if let Some(d) = w.sent.iter().find(|t| **t < 1000) {
+                    rep.fail("C02", "dispute_submitted_without_reorg", &format!("dispute t{} was submitted to the node although no block was disconnected (crash in op {i} ({op:?}) point {j}, restart, catch-up)", *d * 16));
                 }
                 if alive {
                     let fin = w.live.sys.read_db();
